@@ -183,6 +183,10 @@ pub fn run(tier: Tier, seed: u64) -> i32 {
             ops.push(Op::Truncate { h: 0 });
             ops.push(Op::Write { h: 0, len: cs, seed: 30 });
             ops.push(Op::CloseFile { h: 0 });
+            // by now the session has allocated more clusters than the stored count admitted: the count is known to be
+            // wrong, and what the unmount stores is the table's count or "unknown" - never a number made from the stale one
+            ops.push(Op::Remount { how: (i % 2) as u8 });
+            ops.push(Op::Stats);
             let case = Case { vol: v.clone(), ops };
             let mut out = hist::eval_case(&b, &case);
             out.hash = run::hash_str(&format!("stale{}", i));
